@@ -383,7 +383,7 @@ def install_c04_lemma(R):
     R.prop_meta["C04"] = dict(
         bounded_in_quick="end-to-end sow/grow/reap == direct on the real code: replay/C04.py (240 random configurations: grids and case lists, "
                          "batchsize / num_batches / neither, constructor and sow-time shuffle, random grow order with regrouping and repeats, "
-                         "fresh Crop objects, grow() and Crop.grow)",
+                         "fresh Crop objects, grow() and Crop.grow; the cases of a batch on parallel workers finishing out of order)",
         not_decided=["Reaper.__call__ = next(chain.from_iterable(map(load, files))): the lazy-iterator semantics linking __init__'s verified file order "
                      "and _load's contract to the t-th returned value is assumed (hypothesis 5 of lemma SowGrowReap)",
                      "pickle / cloudpickle round trip; fn deterministic"],
